@@ -296,8 +296,31 @@ pub fn run_par(a: &Args) {
 
 /// `parstress`: free-running real threads (no scheduler), 2..8 workers, slowed `best_exact_solution()`; only the
 /// final outcome is observed (phi: optimum, solution replay, bounds)
+/// watchdog of the free-running engine: a run that does not return within `HANG_MS` (normal runs take milliseconds) is
+/// reported as the case `hang` and the process ends (its blocked threads cannot be recovered)
+static STRESS_CUR: Mutex<Option<(std::time::Instant, String, String)>> = Mutex::new(None);
+const HANG_MS: u128 = 20_000;
 pub fn run_parstress(a: &Args) {
-    let mut out = Out::new(&a.out, "parstress");
+    let out = Arc::new(Mutex::new(Some(Out::new(&a.out, "parstress"))));
+    {
+        let out = out.clone();
+        std::thread::spawn(move || loop {
+            std::thread::sleep(std::time::Duration::from_millis(250));
+            let cur = STRESS_CUR.lock().unwrap().clone();
+            if let Some((t0, case, tags)) = cur {
+                if t0.elapsed().as_millis() > HANG_MS {
+                    if let Some(mut o) = out.lock().unwrap().take() { o.case_tagged(&case, "hang", &tags); o.finish(); }
+                    std::process::exit(0);
+                }
+            }
+        });
+    }
+    struct OutH(Arc<Mutex<Option<Out>>>);
+    impl OutH {
+        fn case_tagged(&mut self, c: &str, i: &str, t: &str) { if let Some(o) = self.0.lock().unwrap().as_mut() { o.case_tagged(c, i, t); } }
+        fn finish(self) { if let Some(o) = self.0.lock().unwrap().take() { o.finish(); } }
+    }
+    let mut out = OutH(out);
     verif_hooks::set_callback(None);
     STRESS.store(1, AO::SeqCst); CACHE_YIELD.store(0, AO::SeqCst);
     let mut rng = Rng::new(a.seed);
@@ -330,7 +353,7 @@ pub fn run_parstress(a: &Args) {
         let parts: Vec<&str> = r.split('|').collect();
         let (fam, _) = Fam::parse(&parts[0].split_whitespace().collect::<Vec<_>>());
         let cfg = PCfg::parse(&parts[1..]);
-        for _ in 0..200 { out.case_tagged(r, &run(&fam, &cfg), "replay"); }
+        for _ in 0..200 { *STRESS_CUR.lock().unwrap() = Some((std::time::Instant::now(), r.clone(), "replay".into())); let imp = run(&fam, &cfg); *STRESS_CUR.lock().unwrap() = None; out.case_tagged(r, &imp, "replay"); }
         out.finish(); return;
     }
     let ninst = if a.thorough { 20000 } else { 1500 };
@@ -342,8 +365,11 @@ pub fn run_parstress(a: &Args) {
         s.w = WE::F(*rng.pick(&[1usize, 1, 2]));
         let threads = *rng.pick(&[2usize, 2, 3, 4, 8]);
         let cfg = PCfg { s, threads, built_with: threads, policy: 0, choices: None, cache_yield: false };
+        let case = format!("{} | {}", fam.tokens(), cfg.tokens()); let tags = format!("threads{} stress", threads);
+        *STRESS_CUR.lock().unwrap() = Some((std::time::Instant::now(), case.clone(), tags.clone()));
         let imp = run(&fam, &cfg);
-        out.case_tagged(&format!("{} | {}", fam.tokens(), cfg.tokens()), &imp, &format!("threads{} stress", threads));
+        *STRESS_CUR.lock().unwrap() = None;
+        out.case_tagged(&case, &imp, &tags);
     }
     STRESS.store(0, AO::SeqCst);
     out.finish();
